@@ -23,7 +23,7 @@ pub enum AV {
 }
 
 impl AV {
-    fn show(&self) -> String {
+    pub fn show(&self) -> String {
         match self {
             AV::Bits(b) => format!("bits'{}'", b.iter().map(|x| if *x { '1' } else { '0' }).collect::<String>()),
             AV::Bytes(b) => format!("bytes'{}'", b.iter().map(|x| format!("{x:02X}")).collect::<String>()),
@@ -290,19 +290,19 @@ fn flatten_oid(v: &[AV]) -> Result<Vec<u128>, String> {
 
 // ------------------------------------------------------------------------------------------------ cases
 #[derive(Clone, Debug)]
-struct Case {
+pub struct Case {
     /// ASN.1 text defining supporting types (may be empty)
-    types: String,
+    pub types: String,
     /// type notation of the value
-    ty: String,
+    pub ty: String,
     /// value notation
-    val: String,
-    expected: AV,
+    pub val: String,
+    pub expected: AV,
     /// compare bit strings modulo trailing zero bits (named-bit types, X.680 22.7)
-    trailing_zeros_insignificant: bool,
+    pub trailing_zeros_insignificant: bool,
     /// usable as DEFAULT of a component
-    as_default: bool,
-    form: &'static str,
+    pub as_default: bool,
+    pub form: &'static str,
 }
 
 fn well_known(root: u128, name: &str) -> Option<u128> {
@@ -320,7 +320,7 @@ fn well_known(root: u128, name: &str) -> Option<u128> {
     }
 }
 
-fn gen_case(rng: &mut Rng, n: usize) -> Case {
+pub fn gen_case(rng: &mut Rng, n: usize) -> Case {
     let t = |s: &str| s.replace("@", &n.to_string());
     match rng.below(16) {
         0 | 1 => {
@@ -544,7 +544,7 @@ fn gen_case(rng: &mut Rng, n: usize) -> Case {
     }
 }
 
-fn equal(expected: &AV, got: &AV, tz: bool) -> bool {
+pub fn equal(expected: &AV, got: &AV, tz: bool) -> bool {
     match (expected, got) {
         (AV::Bits(a), AV::Bits(b)) if tz => {
             let trim = |v: &Vec<bool>| {
@@ -692,6 +692,8 @@ pub fn run(ctx: &Ctx) -> Report {
         acc.with(|r| r.merge(local));
     });
     let mut rep = acc.into_inner();
+    // DER level (observation channel O6): the same kind of cases, encoded by the compiled bindings
+    crate::c07der::run(ctx, &mut rep);
     // inconclusive evaluations are reported, never folded into "held"
     let inc = rep.inconclusive.len();
     rep.extra.insert("inconclusive_evaluations".into(), json!(inc));
